@@ -11,7 +11,8 @@ from pyvc.engine import ExtNS, ExtClass, Opaque
 OR = 'skmatter.linear_model._base.OrthogonalRegression'
 i_, j_ = Int('i'), Int('j')
 HPad = z3.Function('HPad', Mat, IntS, Mat)       # [A 0] zero-padded on the right to the given width
-PROC = z3.Function('PROC', Mat, Mat, Mat)        # orthogonal_procrustes(A, B)[0]
+PROC = z3.Function('PROC', Mat, Mat, Mat)
+LPAD = z3.Function('LPAD', Mat, IntS, IntS, Mat)   # zeros on the left (and right): not the padding the property speaks of        # orthogonal_procrustes(A, B)[0]
 
 def hpad_axioms():
     A = z3.Const('A!hp', Mat); w = Int('w!hp')
@@ -31,7 +32,12 @@ def np_pad_mat(I, a, pad_width, *args, **kw):
     pw = [tuple(x) for x in pad_width]
     A = I.A(a)
     isz = lambda v: (not is_sym(conc(v))) and conc(v) == 0
-    if len(pw) != 2 or not isz(pw[0][0]) or not isz(pw[0][1]) or not isz(pw[1][0]): raise Unsupported("np.pad form")
+    if len(pw) != 2 or not isz(pw[0][0]) or not isz(pw[0][1]): raise Unsupported("np.pad form")
+    if not isz(pw[1][0]):
+        # zeros on the LEFT: a different matrix from the right-padded one (kept as an uninterpreted term so that obligations about right padding fail)
+        tot = z3.simplify(tz(A.shape[1]) + tz(pw[1][0]) + tz(pw[1][1]))
+        I.ob('pre:np.pad:non-negative-width', And(tz(pw[1][0]) >= 0, tz(pw[1][1]) >= 0), kind='pre')
+        return ML.mk(I, LPAD(ML.mat_of(I, a), tz(pw[1][0]), tz(pw[1][1])), (A.shape[0], conc(tot)))
     extra = tz(pw[1][1])
     I.ob('pre:np.pad:non-negative-width', extra >= 0, kind='pre')
     w = z3.simplify(tz(A.shape[1]) + extra)
